@@ -182,6 +182,8 @@ func (s *store) Put(key string, value []byte, tags ...spi.Tag) error {
 		return fmt.Errorf("failed to put key, values and tags in the main store: %w", err)
 	}
 
+	verifYield()
+
 	err = s.cacheStore.Put(key, value, tags...)
 	if err != nil {
 		return fmt.Errorf("failed to put key, values and tags in the cache store: %w", err)
@@ -212,6 +214,8 @@ func (s *store) Get(key string) ([]byte, error) {
 	if err != nil {
 		return nil, fmt.Errorf("failed to get tags from main store: %w", err)
 	}
+
+	verifYield()
 
 	err = s.cacheStore.Put(key, value, tags...)
 	if err != nil {
@@ -269,6 +273,8 @@ func (s *store) Delete(key string) error {
 		return fmt.Errorf("failed to delete data in the main store: %w", err)
 	}
 
+	verifYield()
+
 	err = s.cacheStore.Delete(key)
 	if err != nil {
 		return fmt.Errorf("failed to delete data in the cache store: %w", err)
@@ -285,6 +291,8 @@ func (s *store) Batch(operations []spi.Operation) error {
 	if err != nil {
 		return fmt.Errorf("failed to perform operations in the main store: %w", err)
 	}
+
+	verifYield()
 
 	err = s.cacheStore.Batch(operations)
 	if err != nil {
